@@ -2,11 +2,13 @@ package props
 
 import (
 	"fmt"
+	"hash/fnv"
 	"runtime"
 	"strings"
 	"sync"
 	"testing"
 
+	yang "github.com/freeconf/yang"
 	"github.com/freeconf/yang/meta"
 	"github.com/freeconf/yang/node"
 	"github.com/freeconf/yang/nodeutil"
@@ -47,13 +49,25 @@ func c20Module() *dm.Module {
 	}
 	m.Top = append(m.Top, &dm.Node{Kind: "container", Name: "deep", Children: []*dm.Node{leaf("plain", "string"), nested("")}},
 		&dm.Node{Kind: "list", Name: "dl", Keys: []string{"k"}, Children: []*dm.Node{leaf("k", "string"), nested("l-")}})
-	m.Extra = "typedef td { type int32 { range \"0..100\"; } default 7; units u; } grouping g { leaf gl { type td; } container gc { leaf x { type string; } } } " +
+	m.Identities = append(m.Identities, dm.Identity{Name: "id-z", Base: "idbase"}, dm.Identity{Name: "id-m", Base: "idbase"}, dm.Identity{Name: "id-c", Base: "idbase"}, dm.Identity{Name: "id-zz", Base: "id-z"})
+	m.Extra = "typedef pt { type string { pattern \"[a-z]+\" { error-message \"lower\"; error-app-tag \"t1\"; } } } leaf p1 { type pt; } " +
+		"leaf p2 { type string { pattern \"[a-z]+\" { error-message \"other\"; } pattern \"x.*\" { modifier invert-match; } } } leaf p3 { type string { pattern \"x.*\"; } } " +
+		"typedef td { type int32 { range \"0..100\"; } default 7; units u; } grouping g { leaf gl { type td; } container gc { leaf x { type string; } } } " +
 		"container used { uses g { refine gl { description \"r\"; } } } augment \"/used\" { leaf aug { type string; } } feature f; " +
 		"augment \"/c/ch\" { case augcase { leaf augleaf { type string; } } } "
 	return m
 }
 
 func c20Yang() string { return c20Module().Yang() }
+
+var c20FcYangOnce sync.Once
+var c20FcYangModule *meta.Module
+
+// c20FcYang is the library's own schema of schemas, which describes what SchemaBrowser serves (loaded once: it is only read)
+func c20FcYang() *meta.Module {
+	c20FcYangOnce.Do(func() { c20FcYangModule = parser.RequireModule(yang.InternalYPath, "fc-yang") })
+	return c20FcYangModule
+}
 
 var c20Queries = []string{"depth=1", "content=config", "fields=s;i", "fc.xfields=ll", "with-defaults=trim", "fc.range=l!0-1", "depth=2&content=all"}
 var c20Paths = []string{"c", "l=a", "l=a/in=1,x", "l=b", "c/s", "l", "c?depth=1", "l?fc.range=l!0-0", "c?fields=s", "nothere", "l=zz",
@@ -88,7 +102,15 @@ func c20RunOps(mm *meta.Module, ops []c20Op) []string {
 				continue
 			}
 			d, _ := ydump.Module(m2)
-			add(fmt.Sprint(len(ydump.Flatten(d))), nil)
+			flat := ydump.Flatten(d)
+			h := fnv.New64a()
+			for _, k := range sortedKeys(flat) {
+				h.Write([]byte(k + "=" + flat[k] + "\n"))
+			}
+			add(fmt.Sprintf("%d entries, digest %x", len(flat), h.Sum64()), nil)
+		case "schema":
+			// the schema served as data (nodeutil.SchemaBrowser), the way a server publishes it
+			add(nodeutil.WriteJSON(nodeutil.SchemaBrowser(c20FcYang(), mm).Root()))
 		case "export":
 			got := dm.Tree{}
 			err := b.Root().UpsertInto(dm.NewRS(root, got))
@@ -265,7 +287,7 @@ func c20Gen(t *rapid.T) c20Case {
 		var ops []c20Op
 		n := rapid.IntRange(1, 5).Draw(t, "nops")
 		for j := 0; j < n; j++ {
-			kind := rapid.SampledFrom([]string{"load", "export", "upsert", "find", "json", "json-node", "xml", "constrain", "setvalue", "delete", "load", "constrain"}).Draw(t, "kind")
+			kind := rapid.SampledFrom([]string{"load", "export", "upsert", "find", "json", "json-node", "xml", "constrain", "setvalue", "delete", "load", "constrain", "schema"}).Draw(t, "kind")
 			op := c20Op{Kind: kind}
 			switch kind {
 			case "upsert":
@@ -289,7 +311,7 @@ func c20Gen(t *rapid.T) c20Case {
 var c20Shared = hx.Register(&hx.Check[c20Case]{
 	Name:    "c20-shared-schema",
 	Journal: true,
-	Rule:    "2-8 goroutines, each with its own reference store, run 1-5 operations {load the module text (groupings, uses, refine, augments also into a choice, typedefs), export, upsert from JSON, Find with and without query parameters (also to definitions that a lookup by name reaches only through nested choices and augmented cases, and where= expressions naming them), JSON write (also of a slice-backed nodeutil.Node), XML write, Constrain + read, SetValue, Delete} against one shared compiled module that is freshly loaded for every repetition (so that lazily initialised state is first touched concurrently), under GOMAXPROCS 1/2/4/16, each workload twice; built with -race (halt on first report); every goroutine's results must equal what the same list yields alone and the module's accessor dump must be unchanged; non-trivial = at least one loader or constrained read among >= 2 goroutines",
+	Rule:    "2-8 goroutines, each with its own reference store, run 1-5 operations {load the module text (groupings, uses, refine, augments also into a choice, typedefs), export, upsert from JSON, Find with and without query parameters (also to definitions that a lookup by name reaches only through nested choices and augmented cases, and where= expressions naming them), JSON write (also of a slice-backed nodeutil.Node), XML write, the schema itself served as data, Constrain + read, SetValue, Delete} against one shared compiled module that is freshly loaded for every repetition (so that lazily initialised state is first touched concurrently), under GOMAXPROCS 1/2/4/16, each workload twice; built with -race (halt on first report); every goroutine's results must equal what the same list yields alone and the module's accessor dump must be unchanged; non-trivial = at least one loader or constrained read among >= 2 goroutines",
 	Gen:     c20Gen,
 	Run:     c20Run,
 })
